@@ -447,6 +447,25 @@ func divisionZero() {
 	}
 }
 
+// longTracks: tempo events spread over more than 2^32 ticks (every gap is the
+// longest delta the format has), queried around every one of them.
+func longTracks() {
+	for _, n := range []int{15, 16, 17, 18, 24} {
+		for _, res := range []uint16{32767, 960} {
+			var evs []tev
+			var qs []int64
+			var at int64
+			for i := 0; i < n; i++ {
+				evs = append(evs, tev{0x0FFFFFFF, uint32(250000 + 125000*(i%3))})
+				at += 0x0FFFFFFF
+				qs = append(qs, at-1, at, at+1, at+1000)
+			}
+			judgeLight(res, evs, append([]int64{0, 1 << 31, 1 << 32, 1<<32 + 5}, qs...), "long-track")
+			ctx.Add("long_track_maps", 1)
+		}
+	}
+}
+
 // tempoValues: the tempo payload swept over the 24-bit range (thorough: every
 // value; quick: every 61st plus the neighbourhood of every power of two and of
 // the common tempi), as a single tempo event queried far out (an error of a
@@ -513,7 +532,7 @@ func main() {
 		ctx.Finish("replay")
 	}
 	ctx.Assume("tolerance exactly as stated: one microsecond per tempo segment (the stretch before the first change, or after a change at a distinct tick below the query)")
-	ctx.Assume("horizon 100 days; query ticks below 2^31; tempo values are raw 24-bit microsecond-per-quarter payloads")
+	ctx.Assume("horizon 100 days; tempo values are raw 24-bit microsecond-per-quarter payloads; query ticks up to 2^31 in the enumerated maps, beyond 2^32 in the long-track family")
 	nopt := len(gaps) * len(uss)
 	type job struct{ r, f int }
 	var jobs []job
@@ -527,7 +546,13 @@ func main() {
 		cp.Check(ctx, "time-at", cc.TimeAt())
 	})
 	ctx.Jobs("maps", len(jobs), func(j int) { maps(jobs[j].r, jobs[j].f) })
-	ctx.Jobs("inverse", 8, func(j int) { inverse(j); divisionZero() })
+	ctx.Jobs("inverse", 8, func(j int) {
+		inverse(j)
+		divisionZero()
+		if j == 0 {
+			longTracks()
+		}
+	})
 	ctx.Jobs("tempo-values", 16, func(j int) { tempoValues(j, 16) })
 	ctx.Sample(map[string]interface{}{"resolution": 480, "tempo_events(gap,us)": [][2]int{{480, 250000}, {0, 500001}, {1, 16777215}}, "queries": "0, every tempo tick +-2, 2^20, 2^31-1"})
 	ctx.Guard(ctx.NontrivialCount() > 1000, "too few multi-segment queries")
